@@ -241,39 +241,56 @@ def gcWalk (c : OciCfg) (blobs : List Node) (g : GMem) : Nat → Node → Except
       else if blobs.contains s then gcWalk c blobs g fuel s
       else .ok false
 
+/-- `gcIndex`, step 1, one tagged entry: both references are recorded and the manifest's
+    graph is indexed. -/
+def gcTagStep (c : OciCfg) (blobs : List Node) (fuel : Nat) (s : OciSt) (e : RefKey × Node × Nat) : OciSt :=
+  let s' := (s.resolverTag e.2.1 e.2.2 (.dig e.2.1)).resolverTag e.2.1 e.2.2 e.1
+  { s' with graph := GMem.indexAll (succOf c blobs) fuel s'.graph e.2.1 }
+
+/-- `gcIndex`, step 2, one untagged digest entry that is not indexed yet: indexed when its
+    subject chain reaches the graph. -/
+def gcRefStep (c : OciCfg) (fixed : Bool) (blobs : List Node) (fuel : Nat)
+    (acc : Except OErr OciSt) (e : RefKey × Node × Nat) : Except OErr OciSt :=
+  match acc with
+  | .error err => .error err
+  | .ok s =>
+    if s.graph.exists_ e.2.1 && (s.lookupRef (.dig e.2.1)).isSome then .ok s   -- done in an earlier pass
+    else
+    let w := if fixed then gcWalk c blobs s.graph fuel e.2.1 else gcWalkBuggy c s.graph e.2.1
+    match w with
+    | .error err => .error err
+    | .ok false => .ok s
+    | .ok true =>
+      let s' := s.resolverTag e.2.1 e.2.2 (.dig e.2.1)
+      .ok { s' with graph := GMem.indexAll (succOf c blobs) fuel s'.graph e.2.1 }
+
+/-- one pass over the untagged digest entries -/
+def gcPass (c : OciCfg) (fixed : Bool) (blobs : List Node) (fuel : Nat)
+    (rest : List (RefKey × Node × Nat)) (acc : Except OErr OciSt) : Except OErr OciSt :=
+  rest.foldl (gcRefStep c fixed blobs fuel) acc
+
+/-- the tagged entries of the resolver -/
+def gcNamed (st : OciSt) : List (RefKey × Node × Nat) :=
+  st.refs.filter fun e => match e.1 with | .tag _ => true | .dig _ => false
+
+/-- the empty resolver and graph `gcIndex` starts from -/
+def gcFresh (st : OciSt) : OciSt :=
+  { OciSt.empty with blobs := st.blobs, indexFile := st.indexFile, autoSave := st.autoSave, autoGC := st.autoGC }
+
 /-- `gcIndex` (`oci.go:529-583`); `fixed` selects the repaired subject walk. -/
 def gcIndex (c : OciCfg) (fixed repeatPass : Bool) (st : OciSt) (fuel : Nat) : Except OErr OciSt :=
-  let fresh : OciSt := { OciSt.empty with blobs := st.blobs, indexFile := st.indexFile,
-                                           autoSave := st.autoSave, autoGC := st.autoGC }
   -- 1. tagged manifests
-  let named := st.refs.filter fun e => match e.1 with | .tag _ => true | .dig _ => false
-  let s1 := named.foldl (fun s e =>
-    let s' := (s.resolverTag e.2.1 e.2.2 (.dig e.2.1)).resolverTag e.2.1 e.2.2 e.1
-    { s' with graph := GMem.indexAll (succOf c st.blobs) fuel s'.graph e.2.1 }) fresh
+  let named := st.gcNamed
+  let s1 := named.foldl (gcTagStep c st.blobs fuel) st.gcFresh
   let taggedNodes := named.map (·.2.1)
   -- 2. untagged digest entries whose subject chain reaches the graph
   let rest := st.refs.filter fun e => match e.1 with
     | .dig _ => !taggedNodes.contains e.2.1
     | .tag _ => false
-  -- one pass over the untagged digest entries that are not indexed yet
-  let pass (acc : Except OErr OciSt) : Except OErr OciSt :=
-    rest.foldl (fun acc e =>
-      match acc with
-      | .error err => .error err
-      | .ok s =>
-        if s.graph.exists_ e.2.1 && (s.lookupRef (.dig e.2.1)).isSome then .ok s   -- done in an earlier pass
-        else
-        let w := if fixed then gcWalk c st.blobs s.graph fuel e.2.1 else gcWalkBuggy c s.graph e.2.1
-        match w with
-        | .error err => .error err
-        | .ok false => .ok s
-        | .ok true =>
-          let s' := s.resolverTag e.2.1 e.2.2 (.dig e.2.1)
-          .ok { s' with graph := GMem.indexAll (succOf c st.blobs) fuel s'.graph e.2.1 }) acc
   -- the pass is repeated until it indexes nothing new (`repeat`): a referrer may only become
   -- reachable through another referrer; `rest.length` passes reach the fixed point
-  if repeatPass then (List.range (rest.length + 1)).foldl (fun acc _ => pass acc) (.ok s1)
-  else pass (.ok s1)
+  if repeatPass then (List.range (rest.length + 1)).foldl (fun acc _ => gcPass c fixed st.blobs fuel rest acc) (.ok s1)
+  else gcPass c fixed st.blobs fuel rest (.ok s1)
 
 /-- `Store.GC` (`oci.go:474-525`): reload the index, then remove every blob file whose
     digest is not a node of the new graph.  `saveAfter` models the repair of F5. -/
